@@ -4,13 +4,19 @@ use crate::canon::*;
 use crate::util::*;
 use optrs::verif::*;
 
-fn molecule(n: usize) -> Molecule {
-    let syms: Vec<&str> = (0..n).map(|_| "C").collect();
-    Molecule::from_atomic_symbols(&syms)
+/// The elements play no part in the property (the lists are the bond graph's, whatever the atoms are), so they are
+/// varied: every third molecule is all carbon, the others draw from a palette with monovalent, noble-gas, metal and
+/// heavy elements — a bond graph may well give such an atom several neighbours through the bond-order interface.
+pub const PALETTE: [&str; 16] = ["H", "C", "F", "N", "Li", "O", "He", "Cl", "Na", "B", "Fe", "Xe", "Pd", "K", "U", "Og"];
+pub fn palette_symbols(n: usize, salt: usize) -> Vec<&'static str> {
+    (0..n).map(|i| if salt % 3 == 0 { "C" } else { PALETTE[(i * 7 + salt * 5 + (salt / 16)) % PALETTE.len()] }).collect()
+}
+fn molecule(n: usize, salt: usize) -> Molecule {
+    Molecule::from_atomic_symbols(&palette_symbols(n, salt))
 }
 
 fn one(out: &mut Out, n: usize, bonds: &[(usize, usize, f64)], count: &mut usize, nontrivial: &mut usize) {
-    let mut mol = molecule(n);
+    let mut mol = molecule(n, *count);
     install_bonds(&mut mol, bonds);
     let got = connectivity(&mol);
     let text = canon_conn(&got);
